@@ -6,8 +6,9 @@
   * every message: an object without duplicate members, `"jsonrpc": "2.0"`.
   * notification: a string `method`, no `id`, no `result`, no `error`.
   * response: members ⊆ {jsonrpc, id, result, error}; an `id` member — the request's id when the request carries exactly
-    one id member and it is a string or an integer within ±2^53, `null` when the request has no id member at all (unparsable
-    input included), anything otherwise; a Parse error (−32700) / Invalid Request (−32600) answer may always carry `null`
+    one id member and it is a string or a number (a number as the NUMBER VALUE a double-based JSON implementation prints
+    back: an integer as the double nearest to it — itself up to ±2^53 —, a decimal as the same decimal), `null` when the
+    request has no id member at all (unparsable input included), anything otherwise; a Parse error (−32700) / Invalid Request (−32600) answer may always carry `null`
     (JSON-RPC 2.0 §5: "If there was an error in detecting the id in the Request object, it MUST be Null"); exactly one of `result` / `error`; `error` = {code: integer, message: string, data?}; `result` has the shape
     MCP prescribes for the request's method.
 -/
@@ -154,18 +155,47 @@ def wfId : Json → Bool
   | .int i => decide (i.natAbs ≤ 9007199254740992)
   | _ => false
 
+/-- The double nearest to a natural number: IEEE 754 round-to-nearest, ties to even, 53 significant bits. Up to 2^53 it
+    is the number itself; beyond, `2^k` (k = ⌊log₂ n⌋ − 52) is the weight of the last bit a double keeps. -/
+def nearestDoubleNat (n : Nat) : Nat :=
+  if n ≤ 9007199254740992 then n else
+    let k := Nat.log2 n - 52
+    let q := n / 2 ^ k
+    let r := n % 2 ^ k
+    if 2 ^ k < 2 * r ∨ (2 * r = 2 ^ k ∧ q % 2 = 1) then (q + 1) * 2 ^ k else q * 2 ^ k
+
+def nearestDouble : Int → Int
+  | .ofNat n => .ofNat (nearestDoubleNat n)
+  | .negSucc n => -(Int.ofNat (nearestDoubleNat (n + 1)))
+
+/-- The id an answer to a request with the single id member `v` must carry: a string as it is; a NUMBER as the number
+    value a JSON implementation that holds numbers as doubles reads and prints back — an integer as the double nearest
+    to it (the integer itself up to ±2^53; never another sign, never another magnitude), a decimal fraction as the same
+    decimal; `null`, booleans, arrays and objects are no ids: anything goes. -/
+def idTarget : Json → IdDemand
+  | .str s => .exact (.str s)
+  | .int i => .exact (.int (nearestDouble i))
+  | .dec m e => .exact (.dec m e)
+  | _ => .any
+
 /-- which id a response to this input must carry -/
 def idDemand : Option Json → IdDemand
   | some (.obj o) =>
     match membersLoose o t!"id" with
     | [] => .null
-    | [(k, v)] => if k = t!"id" ∧ wfId v then .exact v else .any
+    | [(k, v)] => if k = t!"id" then idTarget v else .any
     | _ => .any
   | _ => .null
 
+/-- `idEq demanded answered`: equal strings, equal numbers (`m / 10^e` for decimals); beyond ±2^53, where the demanded
+    integer is a double, the answer may be ANY decimal rendering of that double (Go prints 2^63 with the shortest digits
+    that identify it: 9223372036854776000) — an integer whose nearest double is the demanded one -/
 def idEq : Json → Json → Bool
   | .str a, .str b => a == b
-  | .int a, .int b => a == b
+  | .int a, .int b => a == b || (decide (9007199254740992 < a.natAbs) && nearestDouble b == a)
+  | .dec a e, .dec b f => a * 10 ^ f == b * 10 ^ e
+  | .int a, .dec b f => a * 10 ^ f == b
+  | .dec a e, .int b => a == b * 10 ^ e
   | _, _ => false
 
 def idOk (d : IdDemand) (id : Json) : Bool :=
